@@ -1,17 +1,21 @@
 (* C17 - LP export denotes the same model.  Statements, `exact`, Print Assumptions only.
-   STATUS: partial.  Target: lp_read (lp_write L) = Some (denote L) (up to Qeq) for finite models with admissible
-   names; proved: the independent reader inverts the writer on every linear expression / row body (coefficients,
-   signs, omitted unit coefficients, omitted zero terms, the all-zero row, the relation).  The whole writer and the
-   reader are run against the REAL text on every check (token equality and lp_read(real text) = denote L). *)
+   STATUS: proved for the whole file: for every linear model whose names are admissible (not a relation, sign or
+   section word) and whose Real / NonNegativeReal bounds are not NaN, the independently written reader applied to the
+   writer's tokens succeeds and returns the model's denotation (sense, objective terms and constant, every row with
+   its name, relation and right-hand side, bounds, binary and general sections), numbers up to Qeq.
+   The writer and the reader are run against the REAL text on every check (token equality and
+   lp_read(real text) = denote L), and the premise lp_okb is evaluated on every tied model. *)
 From Coq Require Import QArith List String.
-From Rooc Require Import Base.XQ Model.Exp Model.Bounds Model.Linearize Model.LpFormat Proof.LpRoundtrip.
+From Rooc Require Import Base.XQ Model.Exp Model.Bounds Model.Linearize Model.LpFormat Proof.LpRoundtrip Proof.LpWhole.
 Import ListNotations.
 Local Close Scope Q_scope.
 
-Definition C17_roundtrip_statement : Prop :=
-  forall L : linmodel, Forall (fun v => name_ok v = true) (lm_vars L) ->
+Theorem C17_roundtrip :
+  forall L : linmodel, lp_okb L = true ->
     exists f, lp_read (lp_write L) = Some f /\ lpfile_eqb f (denote L) = true.
+Proof. exact lp_roundtrip. Qed.
 
+(* the row-level fact the theorem is built from *)
 Theorem C17_row_body_roundtrip_partial :
   forall coeffs vars c rhs rest, Forall (fun v => name_ok v = true) vars ->
     let tail := LWord (cmp_word c) :: LNum rhs :: LNL :: rest in
@@ -25,7 +29,8 @@ Example C17_roundtrip_instance :
   let L := mkLM ["x"; "y"; "z"]%string [("x", TBoolean); ("y", TIntegerRange (-1) 3); ("z", TReal NInf PInf)]%string
                 [mkLRow "cap"%string [Fin 1%Q; Fin (-2)%Q; Fin 0%Q] Le (Fin 3%Q); mkLRow ""%string [Fin 0%Q; Fin 0%Q; Fin 0%Q] Ge (Fin (-1)%Q)]
                 [Fin 0%Q; Fin (5 # 2)%Q; Fin (-1)%Q] (Fin (-4)%Q) DMax in
-  match lp_read (lp_write L) with Some f => lpfile_eqb f (denote L) | None => false end = true.
-Proof. vm_compute. reflexivity. Qed.
+  lp_okb L = true /\ match lp_read (lp_write L) with Some f => lpfile_eqb f (denote L) | None => false end = true.
+Proof. split; vm_compute; reflexivity. Qed.
 
+Print Assumptions C17_roundtrip.
 Print Assumptions C17_row_body_roundtrip_partial.
